@@ -143,7 +143,10 @@ func (l *Loader) parseStdContracts(file, src string) error {
 		for k := range cs.ByKey {
 			before[k] = true
 		}
-		if err := ParseContracts(token.NewFileSet(), file, []byte(text), cs); err != nil {
+		cs.LenientDup = true
+		err := ParseContracts(token.NewFileSet(), file, []byte(text), cs)
+		cs.LenientDup = false
+		if err != nil {
 			return err
 		}
 		for k, c := range cs.ByKey {
